@@ -18,8 +18,8 @@ ASSUMPTIONS = [
     "typing.Union (not PEP 604 unions) is the union form the library documents",
 ]
 PLAN = {
-    "quick": {"shards": 8, "shard_timeout": 400, "case_timeout": 20, "grammars": 40, "max_case_timeouts": 3},
-    "thorough": {"shards": 16, "shard_timeout": 1500, "case_timeout": 30, "grammars": 700, "max_case_timeouts": 20},
+    "quick": {"shards": 8, "shard_timeout": 400, "case_timeout": 20, "grammars": 150, "max_case_timeouts": 6},
+    "thorough": {"shards": 16, "shard_timeout": 3600, "case_timeout": 30, "grammars": 4000, "max_case_timeouts": 80},
 }
 THRESHOLDS = {
     "quick": {"mapped:ge": 200, "mapped:sge": 200, "mapped:dsge": 200, "mapped:stack": 30, "programs_checked": 2000, "kind:tuple": 50, "kind:union": 30, "kind:bool": 50, "kind:list": 100, "kind:abstract": 500, "repr:tree": 200, "repr:ge": 100, "repr:sge": 100, "repr:dsge": 100, "repr:stack": 20, "op:mutate": 100, "op:crossover": 100, "fitness_args_checked": 100},
